@@ -45,6 +45,7 @@ def _lattice_unit():
         ]
 
         def harness(path):
+            given = {}
             def labels(kind, k):
                 o = ObjV('LabelTuple', {}, name='%s[%s]' % (kind, k))
                 o.ident = k
@@ -104,8 +105,21 @@ def _lattice_unit():
             loops = {'globals': g, 'module_constants': True}
             render, view = path.fresh_bool('render'), path.fresh_bool('view')
             env = {'lattice': lat, 'filename': NONE, 'directory': NONE, 'render': BoolV(render), 'view': BoolV(view),
-                   'make_object_label': label_cb('make_object_label'), 'make_property_label': label_cb('make_property_label'),
                    'kwargs': DictV({})}
+            # each callback is either given by the caller or left at its default from the REAL signature (' '.join): the
+            # unbound parameter gets its default expression evaluated by the engine; the join keeps what it joined
+            for cb in ('make_object_label', 'make_property_label'):
+                given[cb] = path.branch(path.fresh_bool(cb + '-given'))
+                if given[cb]:
+                    env[cb] = label_cb(cb)
+
+            def default_join(p, sep, it):
+                r = ObjV('LabelText', {}, name="' '.join(%s)" % getattr(it, 'name', it))
+                r.made_by, r.arg, r.sep = 'default-join', it, getattr(sep, 'value', None)
+                nonempty = p.fresh_bool('label-text-nonempty')
+                r.truth_fn = lambda: nonempty
+                return r
+            loops['str_join'] = default_join
 
             def name_of(k):
                 return StrV(None, parts=[('lit', 'c'), ('fmt', IntV(k), -1, 'd')])
@@ -132,6 +146,7 @@ def _lattice_unit():
                 only_render = all(c[0] == 'render' for c in rest) and len(rest) <= 1
                 path.oblige('trace/after-loop-only-render', 'trace', BoolVal(only_render))
                 path.oblige('trace/render-iff-asked', 'trace', Or(render, view) == BoolVal(len(rest) == 1))
+            loops['given'] = given
             return env, loops, finish, name_of, trace, has_obj, has_prop, nlow, low, perm
         return axioms, lambda path: _harness_with_trace(path, harness)
     return make
@@ -140,6 +155,7 @@ def _lattice_unit():
 def _harness_with_trace(path, harness):
     env, loops, finish, name_of, trace, has_obj, has_prop, nlow, low, perm = harness(path)
     spec = loops[0]
+    given = loops.get('given', {})
     from pyvc.engine import EnvView
 
     def inv(e, k):
@@ -179,7 +195,8 @@ def _harness_with_trace(path, harness):
                     out.append(('trace/label-edge', BoolVal(False)))
                     continue
                 lab = c[2][which]
-                okl = (getattr(lab, 'made_by', None) == cb and getattr(lab.arg, 'kind', None) == kind)
+                okl = (getattr(lab, 'made_by', None) == (cb if given.get(cb, True) else 'default-join') and getattr(lab.arg, 'kind', None) == kind
+                       and (given.get(cb, True) or getattr(lab, 'sep', None) == ' '))
                 out.append(('trace/label-edge', And(eq(c[1][0], nm), eq(c[1][1], nm), BoolVal(okl),
                                                     (lab.arg.ident == kk) if okl else BoolVal(False),
                                                     BoolVal(getattr(c[2]['labelangle'], 'value', None) == angle),
